@@ -507,36 +507,8 @@ fn run_attempt(plan: &Plan, opts: &Opts, t_ms: u64) -> Outcome1 {
                 ),
             });
         }
-        // rescue: helper threads dispatch no-ops; the worker each one spawns drains the blocked senders first.
-        // (a helper can get stuck itself when the rescued job panics and kills that worker: the next helper frees it)
-        let mut helpers: Vec<std::thread::JoinHandle<bool>> = vec![];
-        let t0 = Instant::now();
-        let mut last_spawn = Instant::now();
-        loop {
-            let all_back = sess.wait_until(0, returned) && helpers.iter().all(|h| h.is_finished());
-            if all_back && !helpers.is_empty() {
-                break;
-            }
-            if t0.elapsed() > Duration::from_millis(opts.hang_ms + 5000) {
-                unrecoverable = true;
-                break;
-            }
-            if helpers.len() < 8 && (helpers.is_empty() || last_spawn.elapsed() > Duration::from_millis(300)) {
-                let (s2, p2) = (sess.clone(), pool.clone());
-                helpers.push(std::thread::spawn(move || {
-                    ctl::bind_dispatcher(&s2);
-                    let t0 = Instant::now();
-                    while t0.elapsed() < Duration::from_secs(5) {
-                        if p2.dispatch(|| {}).is_ok() {
-                            return true;
-                        }
-                        std::thread::yield_now();
-                    }
-                    false
-                }));
-                last_spawn = Instant::now();
-            }
-            std::thread::sleep(Duration::from_millis(3));
+        if !oracle::rescue(&sess, &pool, returned, opts.hang_ms + 5000) {
+            unrecoverable = true;
         }
     }
     if timing {
@@ -601,7 +573,7 @@ fn run_attempt(plan: &Plan, opts: &Opts, t_ms: u64) -> Outcome1 {
     }
     // all workers retire, then a probe dispatch must find an empty, usable pool
     if !unrecoverable {
-        let retired = sess.wait_until(opts.settle_ms + 3 * t_ms, |g| g.roles.iter().filter(|r| r.kind == Kind::W).all(|r| r.exited));
+        let retired = sess.wait_until(opts.settle_ms + 3 * t_ms, ctl::all_workers_retired);
         if !retired {
             let g = sess.lock();
             let names = role_names(&g);
@@ -620,16 +592,36 @@ fn run_attempt(plan: &Plan, opts: &Opts, t_ms: u64) -> Outcome1 {
             let ret = g.log[mark..].iter().find_map(|e| if let Ev::Ret { job, ret, .. } = e { (*job == probe).then(|| ret.clone()) } else { None });
             let load_b = g.log[mark..].iter().find_map(|e| if let Ev::Hook { site: "pool.d.load", b, .. } = e { Some(*b) } else { None });
             drop(g);
-            if !back || ret != Some(Ret::Accepted) {
+            let mut back = back;
+            if !back {
+                // the probe dispatch itself hangs: classify it like any other dispatch (the blocking send can be
+                // orphaned here as well when the machine stalls the dispatcher for a whole recv_timeout), then rescue
+                let (hc, names, tail) = {
+                    let g = sess.lock();
+                    let names = role_names(&g);
+                    let tail: Vec<String> = g.log.iter().rev().take(14).rev().map(|e| ctl::render(e, &names)).collect();
+                    (oracle::hang_class(&g, 0), names, tail)
+                };
                 out.problems.push(Problem {
-                    ty: if back { "contract" } else { "hang" },
-                    sig: json!({"site": "pool", "kind": "no-respawn-after-all-workers-retired"}),
-                    desc: format!("after every worker thread had ended a new dispatch was not accepted: returned {:?}, counter read at the limit test {:?}", ret, load_b),
+                    ty: "hang",
+                    sig: json!({"site": "pool", "kind": "dispatch-hang", "where": hc.place, "interleaving": hc.interleaving}),
+                    desc: format!(
+                        "{} did not return from the probe dispatch after all workers retired within {} ms: thread is in {}, {} worker threads alive; last events: {:?}",
+                        names[0], opts.hang_ms, hc.place, hc.live_workers, tail
+                    ),
                 });
+                back = oracle::rescue(&sess, &pool, |g| g.log[mark..].iter().any(|e| matches!(e, Ev::Ret { job, .. } if *job == probe)), opts.hang_ms + 5000);
                 if !back {
                     unrecoverable = true;
                 }
-            } else {
+            } else if ret != Some(Ret::Accepted) {
+                out.problems.push(Problem {
+                    ty: "contract",
+                    sig: json!({"site": "pool", "kind": "no-respawn-after-all-workers-retired"}),
+                    desc: format!("after every worker thread had ended a new dispatch was not accepted: returned {:?}, counter read at the limit test {:?}", ret, load_b),
+                });
+            }
+            if back && ret == Some(Ret::Accepted) {
                 if load_b != Some(0) {
                     out.problems.push(Problem {
                         ty: "contract",
@@ -648,7 +640,7 @@ fn run_attempt(plan: &Plan, opts: &Opts, t_ms: u64) -> Outcome1 {
                 if let Mode::Drv(_) = plan.mode {
                     let _ = txs[0].send(Cmd::Finish(opts.hang_ms));
                 }
-                sess.wait_until(opts.settle_ms + 3 * t_ms, |g| g.roles.iter().filter(|r| r.kind == Kind::W).all(|r| r.exited));
+                sess.wait_until(opts.settle_ms + 3 * t_ms, ctl::all_workers_retired);
             }
         }
     }
